@@ -34,6 +34,11 @@ pub fn verif_dir() -> String {
     std::env::var("MCX_VERIF_DIR").unwrap_or_else(|_| "/verif".to_string())
 }
 
+/// where evidence/ and replays/ are written (default: the verif dir)
+pub fn out_dir() -> String {
+    std::env::var("MCX_OUT_DIR").unwrap_or_else(|_| verif_dir())
+}
+
 #[derive(Clone, Debug)]
 pub struct KnownFinding {
     pub prop: String,
@@ -125,7 +130,7 @@ fn exec_fresh(cfg: &Cfg, cmds: &[Cmd]) -> Result<Vec<String>, String> {
 }
 
 fn write_replay(v: &Violation) -> Result<String, String> {
-    let dir = format!("{}/replays", verif_dir());
+    let dir = format!("{}/replays", out_dir());
     std::fs::create_dir_all(&dir).map_err(|e| e.to_string())?;
     // replay twice on fresh drivers: identical observations or it is a machinery error
     let a = exec_fresh(&v.cfg, &v.cmds)?;
@@ -222,7 +227,7 @@ pub fn finish(rep: Report) -> i32 {
         "wall_s": (wall * 100.0).round() / 100.0,
         "violations": nviol,
     });
-    let dir = format!("{}/evidence", verif_dir());
+    let dir = format!("{}/evidence", out_dir());
     let _ = std::fs::create_dir_all(&dir);
     let path = format!("{}/{}.json", dir, rep.prop);
     if let Err(e) = std::fs::write(&path, serde_json::to_string_pretty(&ev).unwrap()) {
